@@ -66,6 +66,52 @@ int_harness!(u64_rev, u64, 8, u64, true);
 int_harness!(i64_fwd, i64, 8, u64, false);
 int_harness!(i64_rev, i64, 8, u64, true);
 
+/// Order only (no decode): the decoding half drags in the tag parser and its error paths and
+/// does not finish together with two symbolic 64-bit values.
+macro_rules! int_order {
+    ($name:ident, $ty:ty, $n:expr, $rd:ident, $rev:expr) => {
+        harness_e!($name, 2 * $n, |t| {
+            let mut t = Tape::new(t);
+            let a = t.$rd() as $ty;
+            let b = t.$rd() as $ty;
+            let d = dir($rev);
+            let ka = key1(1, a, d);
+            let kb = key1(1, b, d);
+            let want = if $rev { b.cmp(&a) } else { a.cmp(&b) };
+            assert!(cmp_bytes(ka.as_bytes(), kb.as_bytes()) == want, "encoded order equals value order (reversed when descending)");
+            assert!(ka.as_bytes().len() == kb.as_bytes().len(), "fixed-width encodings have equal length");
+            vcover!(a < b, "a < b");
+            vcover!(a > b, "a > b");
+            core::mem::forget(ka);
+            core::mem::forget(kb);
+        });
+    };
+}
+int_order!(u64_order_fwd, u64, 8, u64, false);
+int_order!(u64_order_rev, u64, 8, u64, true);
+int_order!(i64_order_fwd, i64, 8, u64, false);
+int_order!(i64_order_rev, i64, 8, u64, true);
+int_order!(u32_order_rev, u32, 4, u32, true);
+int_order!(i32_order_fwd, i32, 4, u32, false);
+/// Decode of one value (round trip), both directions.
+macro_rules! int_rt {
+    ($name:ident, $ty:ty, $n:expr, $rd:ident) => {
+        harness_e!($name, $n + 1, |t| {
+            let mut t = Tape::new(t);
+            let a = t.$rd() as $ty;
+            let d = dir(t.bool());
+            let ka = key1(1, a, d);
+            let mut p = TupleKeyParser::new(&ka);
+            assert!(p.parse_next_with_key::<$ty>(FieldNumber::must(1), d) == Ok(a), "decode returns the value");
+            vcover!(d == Direction::Reverse, "descending");
+            core::mem::forget(ka);
+        });
+    };
+}
+int_rt!(u64_rt, u64, 8, u64);
+int_rt!(i64_rt, i64, 8, u64);
+int_rt!(i32_rt, i32, 4, u32);
+
 // ------------------------------------------------------------------ strings (ASCII contents, concrete lengths)
 
 fn ascii<const L: usize>(t: &mut Tape) -> ([u8; L], String) {
@@ -270,7 +316,46 @@ harness_e!(decode_total_2, 6, |t| { decode_total::<2>(t) });
 harness_e!(decode_total_4, 8, |t| { decode_total::<4>(t) });
 harness_e!(decode_total_6, 10, |t| { decode_total::<6>(t) });
 
+/// The element iterator alone on an arbitrary key of concrete length L: no panic, and the
+/// elements partition the key (every byte in exactly one element, in order).  Cheap enough
+/// for the quick tier; the parser entry points on arbitrary bytes are in decode_total_*.
+fn iter_partition<const L: usize>(t: &[u8]) {
+    let mut t = Tape::new(t);
+    let raw: [u8; L] = t.arr();
+    let tk = TupleKey::from(&raw[..]);
+    let mut n = 0;
+    let mut total = 0;
+    let mut it = tk.iter();
+    while n <= L {
+        match it.next() {
+            Some(e) => {
+                assert!(e.len() >= 1, "elements are non-empty");
+                let mut j = 0;
+                while j < e.len() {
+                    assert!(e[j] == raw[total + j], "elements are consecutive slices of the key");
+                    if j + 1 < e.len() {
+                        assert!(e[j] & 1 == 1, "only the last byte of an element has the low bit clear");
+                    }
+                    j += 1;
+                }
+                total += e.len();
+            }
+            None => break,
+        }
+        n += 1;
+    }
+    assert!(total == L, "the element iterator partitions the key");
+    assert!(it.next().is_none(), "the iterator stays exhausted");
+    vcover!(L == 0 || raw[L - 1] & 1 == 1, "key ends in a continuation byte (a truncated element)");
+    core::mem::forget(tk);
+}
+harness_e!(iter_partition_1, 1, |t| { iter_partition::<1>(t) });
+harness_e!(iter_partition_3, 3, |t| { iter_partition::<3>(t) });
+harness_e!(iter_partition_5, 5, |t| { iter_partition::<5>(t) });
+
 harness_list!(
+    u64_order_fwd, u64_order_rev, i64_order_fwd, i64_order_rev, u32_order_rev, i32_order_fwd, u64_rt, i64_rt, i32_rt,
+    iter_partition_1, iter_partition_3, iter_partition_5,
     u32_fwd, u32_rev, i32_fwd, i32_rev, u64_fwd, u64_rev, i64_fwd, i64_rev,
     str_fwd_0_1, str_fwd_1_1, str_fwd_1_2, str_fwd_2_2, str_fwd_2_3, str_fwd_3_3, str_fwd_1_4, str_fwd_4_4, str_fwd_1_7,
     str_rev_1_1, str_rev_2_2, str_rev_1_2, str_rev_2_3, str_rev_prefix_0_1, str_rev_prefix_1_2,
